@@ -323,7 +323,7 @@ class Verifier:
         if cls is not None and not is_class:
             self._method_cls = c.target.replace(":", ".").rsplit(".", 1)[0]
         bg = list(sb.wf)
-        ex = Exec(self.repo, m, self.handlers, self.inline, c.mode, True, 300, bg, self.numeric, self.trace)
+        ex = Exec(self.repo, m, self.handlers, self.inline, c.mode, True, 120, bg, self.numeric, self.trace)
         ex.inline_prefixes = ("contracts.",)
         p0 = Path([], {})
         if prelude is not None:
@@ -365,6 +365,14 @@ class Verifier:
                         sfx = f".{j}" if len(parts) > 1 else ""
                         obls.append(Obligation(f"{base}/post@L{o.line}#{k}{sfx}", "post", list(ex.bg) + o.cond + spec_assumed + [z3.Not(part)],
                                                inputs=inputs, result=res, meta=dict(contract=cname, line=o.line, mode=c.mode)))
+                        # the same obligation with a declared known-finding region excluded (decides, in the same batch,
+                        # whether a failure lies entirely inside that region)
+                        for rname in c.attrs.get("regions", []):
+                            rfn = c.module.defs[rname]
+                            region = self.pred_node(ex, c.module, rfn, {**vals}, Path(o.cond, None, None, o.heap))
+                            obls.append(Obligation(f"{base}/post@L{o.line}#{k}{sfx}/outside:{rname}", "post-outside-region",
+                                                   list(ex.bg) + o.cond + spec_assumed + [z3.Not(part), z3.Not(region)],
+                                                   inputs=inputs, result=res, meta=dict(contract=cname, line=o.line, region=rname)))
                 obls.append(Obligation(f"{base}/cover-return@L{o.line}#{k}", "cover", list(ex.bg) + o.cond, expect="sat",
                                        inputs=inputs, meta=dict(contract=cname, line=o.line)))
             elif o.kind == "raise":
